@@ -1,6 +1,6 @@
 """C18 - used-timezone discovery is complete; adding missing timezones closes it.
 
-E-enum + E-hist: calendars = every subset of <=3 of 10 placements of zoned values (DTSTART, DTEND, DUE,
+E-enum + E-hist: calendars = every subset of <=3 of 11 placements of zoned values (DTSTART, DTEND, DUE,
 RECURRENCE-ID, two RDATE lines with different zones, EXDATE, FREEBUSY, a DATE-TIME TRIGGER in a nested alarm, a DTSTART
 at depth 3 inside unknown components, an X- property) x every subset of 6 pre-existing VTIMEZONEs (used, the same one
 again, unused known, definition of the unknown used id, unused unknown id, VTIMEZONE without TZID), built by parsing
@@ -32,6 +32,8 @@ PLACEMENTS = {
     "P8": ("VEVENT/VALARM", ["TRIGGER;VALUE=DATE-TIME;TZID=%s:20240601T093000" % B], {B}),
     "P9": ("VEVENT/X-COMP/X-INNER", ["DTSTART;TZID=%s:20240601T100000" % D], {D}),
     "P10": ("VJOURNAL", ["X-FOO;TZID=%s:bar" % A], {A}),
+    # an "unclean" id the provider resolves after stripping the slash: the VTIMEZONE must carry the id as used
+    "P11": ("VEVENT", ["EXDATE;TZID=/%s:20240605T100000" % D], {"/" + D}),
 }
 PRESETS = ("tzA", "tzA2", "tzT", "tzC", "tzX", "tzNoId")
 
@@ -140,6 +142,8 @@ def build_api(placements, presets):
             c.add("dtstart", datetime(2024, 6, 1, 10, tzinfo=zd))
         elif p == "P10":
             c.add("x-foo", "bar", parameters={"TZID": A})
+        elif p == "P11":
+            c.add("exdate", [datetime(2024, 6, 5, 10)], parameters={"TZID": "/" + D})
     return cal
 
 
@@ -226,9 +230,9 @@ replay = run_case
 
 def run(ctx):
     maxp = 3
-    ctx.rule = (f"E-enum: every subset of <={maxp} of 10 zoned-value placements (depth 1-3, incl. two RDATE lines with "
+    ctx.rule = (f"E-enum: every subset of <={maxp} of 11 zoned-value placements (depth 1-3, incl. two RDATE lines with "
                 "different zones, FREEBUSY periods, a zoned TRIGGER in a nested alarm, an X- property) x every subset of 6 "
-                "pre-existing VTIMEZONEs x {parsed text, API-built} under zoneinfo; under pytz all subsets of <=2 placements x "
+                "pre-existing VTIMEZONEs (quick: triples only with 0, 1 or all 6 of them) x {parsed text, API-built} under zoneinfo; under pytz all subsets of <=2 placements x "
                 "all VTIMEZONE subsets (parsed) ; then get_used, get_missing, 3 x add_missing_timezones (window 2024; default "
                 "window for single placements). non-trivial = some zone used and (a VTIMEZONE present or something missing).")
     ctx.bounds = {"placements": len(PLACEMENTS), "max_placements": maxp, "vtimezone_presets": list(PRESETS)}
@@ -243,6 +247,8 @@ def run(ctx):
     def gen():
         for presets in subsets(PRESETS, len(PRESETS)):
             for placements in subsets(pl, maxp):
+                if ctx.quick and len(placements) == 3 and len(presets) not in (0, 1, 6):
+                    continue  # quick: triples of placements only with none / one / all pre-existing VTIMEZONEs
                 for how in ("parse", "api"):
                     yield ("c", "zoneinfo", how, placements, presets, WINDOW)
             for placements in subsets(pl, 2 if not ctx.quick else 1):
